@@ -52,6 +52,12 @@ type c30Env struct {
 	nd  *node
 	srv *jsonrpc.JSONRPCServer
 	ctx context.Context
+	// wire: the signed transaction is serialised and parsed again with the VM's
+	// parser before it is submitted (what a node does with a gossiped/issued
+	// transaction): the executed actions are the parser's objects, exactly like
+	// the actions the APIs execute (e.g. zero-length byte fields come back from
+	// the codec, nil or empty as the codec decides)
+	wire bool
 }
 
 func newC30Env(t *testing.T, f *vm.Factory, allocs []*genesis.CustomAllocation, extra ...vm.Option) (*c30Env, func(), error) {
@@ -97,6 +103,16 @@ func (e *c30Env) onChain(f chain.AuthFactory, acts []chain.Action) (c30Chain, er
 	tx, err := chain.GenerateTransaction(e.nd.hvm.GetRuleFactory(), fees.Dimensions{}, time.Now().UnixMilli(), acts, f)
 	if err != nil {
 		return c30Chain{Why: "generate: " + err.Error()}, nil
+	}
+	if e.wire {
+		ptx, err := chain.UnmarshalTx(tx.Bytes(), e.nd.hvm.GetParser())
+		if err != nil {
+			return c30Chain{}, fmt.Errorf("re-parse of the signed transaction: %w", err)
+		}
+		if ptx.GetID() != tx.GetID() {
+			return c30Chain{}, fmt.Errorf("re-parsed transaction has id %s, the signed one %s", ptx.GetID(), tx.GetID())
+		}
+		tx = ptx
 	}
 	if err := e.nd.hvm.Submit(e.ctx, []*chain.Transaction{tx})[0]; err != nil {
 		return c30Chain{Why: "submit: " + err.Error()}, nil
